@@ -35,6 +35,7 @@ type zzC10Input struct {
 	annotation    string // "" | r1 | r2 | malformed      (override of container "agent" on the node)
 	setting       string // "" | agent | sidecar         (container the valid setting gives resources to)
 	addAffinity   bool
+	strayAnnotation bool // the node also carries an override for a container the template does not have (a leftover)
 	tolerations   string // "" | catch-all | narrow-seconds | narrow-value | other-effect   (tolerations of the template)
 }
 
@@ -59,7 +60,7 @@ func zzC10Pick() zzC10Input {
 	if nondet.Thorough() && nondet.Bool("twoContainers") {
 		in.nContainers = 2
 	}
-	switch nondet.String("nodeAnnotation", "", "r1", "r2", "malformed", "undecodable", "wrong-shape") {
+	switch nondet.String("nodeAnnotation", "", "r1", "r2", "malformed", "undecodable", "wrong-shape", "other-container", "r1-and-other-container") {
 	case "r1":
 		in.annotation = "r1"
 	case "r2":
@@ -70,6 +71,15 @@ func zzC10Pick() zzC10Input {
 		in.annotation = "undecodable"
 	case "wrong-shape":
 		in.annotation = "wrong-shape"
+	case "other-container":
+		in.annotation = "other-container"
+	case "r1-and-other-container":
+		in.annotation = "r1"
+		in.strayAnnotation = true
+	}
+	if in.annotation == "other-container" {
+		in.annotation = ""
+		in.strayAnnotation = true
 	}
 	switch nondet.String("setting", "", "agent", "sidecar") {
 	case "agent":
@@ -157,6 +167,9 @@ func zzC10Build(in zzC10Input) (*datadoghqv1alpha1.ExtendedDaemonSetReplicaSet, 
 		node.Annotations[zzAnnPrefix+"agent"] = `{"requests":{"cpu":"lots"}}`
 	case "wrong-shape": // JSON, but not an object
 		node.Annotations[zzAnnPrefix+"agent"] = `[]`
+	}
+	if in.strayAnnotation {
+		node.Annotations[zzAnnPrefix+"process-agent"] = `{"requests":{"cpu":"50m"}}`
 	}
 	var setting *datadoghqv1alpha1.ExtendedDaemonsetSetting
 	if in.setting != "" {
